@@ -138,6 +138,15 @@ NoConfirmationFromSilence ==
 \* a witness that can back a different header => attack error with evidence
 AttackReported == IsCall => AttackHandled(act.att, act.res, {e.to : e \in Range(act.ev)})
 
+\* ORDER INDEPENDENCE of the verdict: whether the call ends with the attack error is decided by
+\* whether SOME witness can back a different header (the ghost act.att, computed per
+\* (witness, header) right after the comparison round, the same for every arrival order of
+\* the replies) -- never by which reply happened to be processed first
+OrderIndependent == (IsCall /\ \E i \in DOMAIN act.obs : act.obs[i].ph = "det")
+                    => ((act.res = "Attack") <=> (act.att # {}))
+\* in particular a backing witness is never outvoted by an accomplice of the primary
+AttackerNeverOutvoted == (IsCall /\ act.att # {}) => act.post = act.pre
+
 \* an attack error is never followed by storing the header
 AttackStoresNothing == (IsCall /\ act.res # Nil) => act.post = act.pre
 
